@@ -119,6 +119,8 @@ class LinExpr:
     def __str__(self):
         return " + ".join(f"{c}*{v.name}" for v, c in self.terms.items()) + (f" + {self.const}" if self.const else "")
 
+    __repr__ = __str__
+
 
 class LpVariable:
     _folder_stub = True
@@ -146,7 +148,7 @@ class LpVariable:
 
     # identity hash like the library (variables are dictionary keys), comparisons build constraints
     def __hash__(self):
-        return id(self) >> 4
+        return self.serial
 
     def getName(self):
         return self.name
@@ -237,6 +239,8 @@ class Constraint:
         t, s, r = self.normal()
         return " + ".join(f"{c}*{n}" for n, c in t) + f" {s} {r}"
 
+    __repr__ = __str__
+
 
 def lpSum(vector: Iterable) -> LinExpr:
     out = LinExpr()
@@ -300,6 +304,8 @@ class LpProblem:
     def __str__(self):
         return f"{self.name}: {len(self.constraints)} constraints"
 
+    __repr__ = __str__
+
 
 class Solver:
     _folder_stub = True
@@ -311,6 +317,9 @@ class Solver:
 
     def available(self):
         return self._available
+
+    def __repr__(self):
+        return f"<solver {self.name}>"
 
     def actualSolve(self, problem: LpProblem, **kw):
         return self.world.solve(problem, self)
